@@ -5,6 +5,8 @@ import Grenad.Proofs.WriterTreeBase
 
 namespace Grenad
 
+open WT
+
 /-- The store described by a log: the ghost items of the first block recorded at `off`. -/
 def storeOf (log : List Emitted) : Store :=
   fun off => (log.find? (·.offset = off)).map (·.items)
